@@ -311,10 +311,16 @@ func init() {
 									always = true
 								}
 							}
+							// half of the plans meet their fault on the BATCH port (two-tier stacks, binary);
+							// always run: a fault on the first L1 request of a get issued there
+							batch := (cmi+fi)%2 == 1 && cfg.Orca == "l1l2" && proto == "bin"
+							if batch && cmd.Kind == "get" && f.Tier == "L1" && f.Index == 0 {
+								always = true
+							}
 							if r.Float64() > sample && !always && os.Getenv("VERIF_ONLY") == "" {
 								continue
 							}
-							sc := faultScenario("C10-"+tag, cfg, proto, cmd, f, lose)
+							sc := faultScenario("C10-"+tag, cfg, proto, cmd, f, lose, batch)
 							out := RunScenarioO(d, sc, 2*time.Second, false)
 							if out.Tainted {
 								out = RunScenarioO(d, sc, 2*time.Second, false)
